@@ -667,7 +667,7 @@ std::string build_codec_case(const std::string &kind_in) {
 std::string build_conc_case(const std::string &kind_in) {
   bool thorough = kind_in.find("-thorough") != std::string::npos;
   std::string kind = kind_in.substr(0, kind_in.find('-'));
-  bool c09 = kind == "C09", c04 = kind == "C04c", c10 = kind == "C10";
+  bool c09 = kind == "C09", c04 = kind == "C04c", c10 = kind == "C10", c20 = kind == "C20c";
   int len = *rc::gen::withSize([&](int size) { return rc::gen::just(size); });
   std::vector<std::string> lines;
   // tiny programs for bounded-exhaustive schedule enumeration (shared keys, complete linearizability search)
@@ -732,7 +732,7 @@ std::string build_conc_case(const std::string &kind_in) {
     left[t]--; total--;
     int c = uni(0, 99);
     std::string sync = chance(10) ? " sync=1" : "";
-    int wput = c04 ? 20 : 38, wdel = 8, wbatch = c04 ? 30 : 12, wget = c04 ? 10 : 20, wsnap = c04 ? 20 : 10, wscan = c04 ? 8 : 4, wflush = c09 ? 8 : 3, wcr = c09 ? 5 : 2, wmisc = 3;
+    int wput = c04 ? 20 : 38, wdel = 8, wbatch = (c04 || c20) ? 30 : 12, wget = c04 ? 10 : 20, wsnap = c04 ? 20 : 10, wscan = c04 ? 8 : 4, wflush = c09 ? 8 : 3, wcr = c09 ? 5 : 2, wmisc = c20 ? 14 : 3;
     int tot = wput + wdel + wbatch + wget + wsnap + wscan + wflush + wcr + wmisc;
     c = uni(0, tot - 1);
     if ((c -= wput) < 0) lines.push_back(fmt("thread %d put tT%dk%d ", t, t, uni(0, nkeys[t] - 1)) + val(t) + sync);
@@ -756,7 +756,7 @@ std::string build_conc_case(const std::string &kind_in) {
     else if ((c -= wscan) < 0) lines.push_back(fmt("thread %d scan", t));
     else if ((c -= wflush) < 0) lines.push_back(fmt("thread %d flush", t));
     else if ((c -= wcr) < 0) lines.push_back(fmt("thread %d crange %d", t, uni(0, 1)));
-    else lines.push_back(fmt("thread %d %s", t, (c10 && chance(25)) ? "backup" : chance(50) ? "prop" : "approx"));
+    else lines.push_back(fmt("thread %d %s", t, ((c10 && chance(25)) || (c20 && chance(85)) || (c09 && chance(20))) ? "backup" : chance(50) ? "prop" : "approx"));
   }
   std::string text;
   for (auto &l : lines) { text += l; text += "\n"; }
@@ -765,7 +765,7 @@ std::string build_conc_case(const std::string &kind_in) {
 
 bool is_conc_kind(const std::string &k) {
   std::string b = k.substr(0, k.find('-'));
-  return b == "C08" || b == "C09" || b == "C04c" || b == "C10";
+  return b == "C08" || b == "C09" || b == "C04c" || b == "C10" || b == "C20c";
 }
 
 bool is_crash_kind(const std::string &k) {
